@@ -173,7 +173,12 @@ class Builder(NullCell):
         if isinstance(address, str):
             address = Address(address)
 
-        self.store_bits('100')  # addr_std$10 + maybe anycast = 0
+        if address.anycast is None:
+            self.store_bits('100')  # addr_std$10 + maybe anycast = 0
+        else:
+            # addr_std$10 + just$1 anycast_info$_ depth:(#<= 30) rewrite_pfx:(bits depth)
+            self.store_bits('101').store_uint(address.anycast.depth, 5)
+            self.store_uint(address.anycast.rewrite_pfx, address.anycast.depth)
 
         return self.store_int(address.wc, 8).store_bytes(address.hash_part)
 
